@@ -129,7 +129,7 @@ func c07(args []string) {
 	})
 	counts := map[string]int{}
 	distinct := map[string]bool{}
-	reported := 0
+	perClass := map[string]int{}
 	for i, r := range rows {
 		row := geto(r, "row")
 		c := geto(row, "c")
@@ -146,11 +146,12 @@ func c07(args []string) {
 		}
 		emit := func(what string) {
 			counts[what]++
-			if reported < 60 || what == "unsound" && counts[what] < 200 {
-				reported++
+			shortcut := kind == "cons" && geti(c, "m") < geti(c, "n") && geti(c, "oroot") == geti(c, "nroot")
+			class := fmt.Sprintf("%s/%s/%s/%v", what, kind, mut, shortcut)
+			perClass[class]++
+			if perClass[class] <= 3 {
 				vio.Emit(obj{"finding": what, "v": kind, "mut": mut, "job": r["job"], "c": c, "spec_acc": acc, "spec_strict": strict,
-					"truth": truth, "real_accepted": o.accepted, "panic": o.panicked, "note": o.note,
-					"shortcut": kind == "cons" && geti(c, "m") < geti(c, "n") && geti(c, "oroot") == geti(c, "nroot")})
+					"truth": truth, "real_accepted": o.accepted, "panic": o.panicked, "note": o.note, "shortcut": shortcut})
 			}
 		}
 		switch {
